@@ -113,6 +113,10 @@ type Rule struct {
 	// Expr exactly like that; LRTails / LRBases index the alternatives so that the
 	// reference interpreter can evaluate the rule by its denotation.
 	LR *LRInfo `json:"lr,omitempty"`
+
+	// Big marks the big entry rules of scale.go (kind: choice, seq, lit, class, chain, star)
+	// and their wrappers: the input sampler lifts its size limits for them.
+	Big string `json:"big,omitempty"`
 }
 
 // LRInfo describes a directly left-recursive rule (or the entry of a single
